@@ -53,6 +53,9 @@ func (o *OnceHandle) Once() Component {
 	return ComponentFunc(func(ctx context.Context, w io.Writer) (err error) {
 		_, v := getContext(ctx)
 		if v.getHasBeenRendered(o) {
+			// The block passed to this call is not rendered, take it out of the shared context
+			// value so that the next component called without a block doesn't receive it.
+			ClearChildren(ctx)
 			return nil
 		}
 		v.setHasBeenRendered(o)
